@@ -162,6 +162,14 @@ var dhkems = map[uint16]*DHKEM{
 	KEMX448:   {ID: KEMX448, Name: "DHKEM(X448, HKDF-SHA512)", hash: sha512.New, Nsecret: 64, Nenc: 56, Npk: 56, Nsk: 56, Ndh: 56},
 }
 
+// CurveOrder returns the group order of a NIST-curve DHKEM (nil otherwise).
+func CurveOrder(id uint16) *big.Int {
+	if k := dhkems[id]; k != nil && k.curve != nil {
+		return new(big.Int).Set(k.curve.Params().N)
+	}
+	return nil
+}
+
 // GetDHKEM returns the DHKEM with that id or nil.
 func GetDHKEM(id uint16) *DHKEM { return dhkems[id] }
 
